@@ -519,6 +519,27 @@ theorem dels_absTicks (cls : Bytes → Rx) (s : List BNet) (hs : noEof s) : ∀ 
       rw [this, ← List.append_assoc buf seg, frames_append (buf ++ seg)]
       simp
 
+/-- once the end of the stream has been consumed nothing more is read -/
+theorem consume_eof (s : List (Option Rx)) (h : none ∈ s) : ∀ p, halted (consume p s).1 = true := by
+  induction s with
+  | nil => simp at h
+  | cons x xs ih =>
+    intro p
+    by_cases hh : halted p = true
+    · rw [consume_closed p hh]; exact hh
+    · have hh' : halted p = false := by simpa using hh
+      cases x with
+      | some r =>
+        have hx : none ∈ xs := by simpa using h
+        simp only [consume, hh', Bool.false_eq_true, ↓reduceIte]
+        exact ih hx _
+      | none =>
+        simp only [consume, hh', Bool.false_eq_true, ↓reduceIte]
+        have hs : halted (eofStep p).1 = true := by
+          have := dispatch_sock_false { p with evq := [.e17], sock := false, inbox := [] } .e17 rfl (by simp) rfl
+          simp [halted, eofStep, this]
+        rw [consume_closed _ hs]; exact hs
+
 theorem dels_append (a b : List Tick) : dels (a ++ b) = dels a ++ dels b := by simp [dels]
 
 theorem dels_idle (n : Nat) : dels (List.replicate n ({} : Tick)) = [] := by
@@ -530,5 +551,48 @@ theorem run_append (a b : List Tick) : ∀ p, run p (a ++ b) = ((run (run p a).1
   induction a with
   | nil => intro p; simp [run]
   | cons t ts ih => intro p; simp [run, ih, List.append_assoc]
+
+/-- **the peer's close always ends the association.**  From any reachable calm state, under any schedule in
+which only the network acts and which delivers the peer's close (after anything at all, in any segmentation),
+`mu` further idle passes leave the provider idle (Sta1), its transport closed and ARTIM stopped. -/
+theorem eof_closes (p : P) (hp : Calm p) (hinv : PInv p) (hc : p.crashed = false) (ts : List Tick)
+    (hn : ∀ t ∈ ts, NetOnly t) (heof : none ∈ dels ts) (n : Nat) (hmu : mu (run p ts).1 ≤ n) :
+    (run p (ts ++ List.replicate n ({} : Tick))).1.st = .s1 ∧ (run p (ts ++ List.replicate n ({} : Tick))).1.sock = false ∧
+    (run p (ts ++ List.replicate n ({} : Tick))).1.timer = false ∧
+    (run p (ts ++ List.replicate n ({} : Tick))).1.crashed = false := by
+  have hi : ∀ t ∈ List.replicate n ({} : Tick), NetOnly t := by
+    intro t ht; rw [List.eq_of_mem_replicate ht]; exact ⟨rfl, rfl, rfl⟩
+  have hall : ∀ t ∈ ts ++ List.replicate n ({} : Tick), NetOnly t := by
+    intro t ht; simp only [List.mem_append] at ht; rcases ht with ht | ht
+    · exact hn t ht
+    · exact hi t ht
+  have hpo : PeerOnly (ts ++ List.replicate n ({} : Tick)) := fun t ht => (hall t ht).1
+  -- the final state: calm, invariant, not crashed, drained
+  have hcalm := (run_consume _ p hp hall).1
+  have hpinv := run_inv (ts ++ List.replicate n ({} : Tick)) p hinv
+  have hnu := run_peer _ hpo p hinv ⟨hc, hp.1.1, hp.1.2.1⟩
+  have hdr : Drained (run p (ts ++ List.replicate n ({} : Tick))).1 := by
+    rw [run_append]; exact drained_after _ (run_consume _ p hp hn).1 n hmu
+  have hfun := run_function_of_stream _ p hp hall hdr
+  have hd : dels (ts ++ List.replicate n ({} : Tick)) = dels ts := by rw [dels_append, dels_idle]; simp
+  rw [hd] at hfun
+  have hh := consume_eof (stream p ++ dels ts) (by simp [heof]) (core p)
+  rw [← hfun] at hh
+  have hcr := hnu.1
+  have hsock : (run p (ts ++ List.replicate n ({} : Tick))).1.sock = false := by
+    simp only [halted, core, withNet, hcr, Bool.or_false, Bool.not_eq_true'] at hh
+    exact hh
+  have hq : Quiet (run p (ts ++ List.replicate n ({} : Tick))).1 := by
+    rcases hpinv hcr with h | h | h
+    · exact h
+    · exact absurd hcalm.2 (by rw [h.2.2.2]; simp)
+    · exact absurd hcalm.2 (by rw [h.2.2.2]; simp)
+  obtain ⟨_, htm, _, hs⟩ := hq
+  have hst := hs.mpr hsock
+  refine ⟨hst, hsock, ?_, hcr⟩
+  unfold TimerOk at htm
+  cases ht : (run p (ts ++ List.replicate n ({} : Tick))).1.timer with
+  | false => rfl
+  | true => have := htm.mp ht; rw [hst] at this; simp at this
 
 end Dicom.Prov
